@@ -25,7 +25,7 @@ ASSUMPTIONS = ['precondition of the property: coordinate sorted input and every 
                'schedules are the deterministic ejection interval of a single-threaded generator']
 MIN_NONTRIVIAL = {'quick': 1500, 'thorough': 60000}
 REQUIRED_MONITORS = ['event:arrive', 'event:emit', 'emit:before_end_of_input', 'schedule:runs', 'path:alignmentfile', 'oracle:truth_compared',
-                     'eject:rounds_with_ejection', 'eject:rounds_nonprefix', 'eject:rounds_noncontiguous', 'history:restarted_passes']
+                     'eject:rounds_with_ejection', 'eject:rounds_nonprefix', 'eject:rounds_noncontiguous', 'history:restarted_passes', 'config:max_associated_fragments']
 EXHAUSTIVE = {'quick': True, 'thorough': True}
 SHARD_TIMEOUT = {'quick': 900, 'thorough': 7200}
 
@@ -186,7 +186,14 @@ def run_case(case):
         groups[t['key']].add(rid)
     truth_part = set(frozenset(g) for g in groups.values())
     has_multi = any(len(g) > 1 for g in truth_part) or any(t['key'][0] == 'single' for t in truths.values())
-    cfg = {'method': method, 'cache_size': cache, 'hamming': d, 'fragments': n, 'contigs': len(gen.refs)}
+    # a cap on the fragments per molecule: the surplus copies are emitted as molecules of their own (overflow) - which ones, must not depend
+    # on the ejection schedule either
+    cap = r.choice([None, None, None, 2, 3])
+    margs = {'cache_size': cache}
+    if cap:
+        margs['max_associated_fragments'] = cap
+    acc.count('config:max_associated_fragments', 1 if cap else 0)
+    cfg = {'method': method, 'cache_size': cache, 'hamming': d, 'fragments': n, 'contigs': len(gen.refs), 'max_associated_fragments': cap}
 
     def execute(every, pooling, source='generator', bam=None):
         events = []
@@ -226,7 +233,7 @@ def run_case(case):
         with contextlib.redirect_stdout(io.StringIO()):
             if source == 'generator':
                 it = MoleculeIterator(feeder(), molecule_class=mclass, fragment_class=fclass, fragment_class_args=dict(fargs),
-                                      molecule_class_args={'cache_size': cache}, check_eject_every=every, pooling_method=pooling,
+                                      molecule_class_args=dict(margs), check_eject_every=every, pooling_method=pooling,
                                       yield_invalid=True)
                 for m in it:
                     ids = sorted(F.id_from_name([x for x in frag if x is not None][0].query_name) for frag in m)
@@ -238,7 +245,7 @@ def run_case(case):
             else:
                 with pysam.AlignmentFile(bam) as f:
                     it = MoleculeIterator(f, molecule_class=mclass, fragment_class=fclass, fragment_class_args=dict(fargs),
-                                          molecule_class_args={'cache_size': cache}, check_eject_every=every, pooling_method=pooling,
+                                          molecule_class_args=dict(margs), check_eject_every=every, pooling_method=pooling,
                                           yield_invalid=True)
                     for m in it:
                         ids = sorted(F.id_from_name([x for x in frag if x is not None][0].query_name) for frag in m)
@@ -265,7 +272,7 @@ def run_case(case):
                         f'{label} check_eject_every={every} pooling={pooling}: partition differs from the never-eject run; only here {sorted(a - b)[:3]}, '
                         f'only in reference {sorted(b - a)[:3]} ({cfg})', dict(wit, only_here=sorted(a - b)[:6], only_reference=sorted(b - a)[:6]))
         # premature emission: an emitted molecule followed by the arrival of a fragment with the same exact key
-        if events:
+        if events and not cap:
             emitted_keys = {}
             for ev in events:
                 if ev[0] == 'emit':
@@ -295,10 +302,10 @@ def run_case(case):
         # candidate with every member, pooling 1 with the molecule's aggregated span, so on crafted single-end inputs the two legitimately group
         # differently (also on paired data when far ends of different molecules coincide). Agreement of the pooling methods is demanded where
         # grouping is well defined: the site based classes.
-        if not single_end_plain and method != 'plain' and ref_parts[0] != ref_parts[1]:
+        if not single_end_plain and method != 'plain' and not cap and ref_parts[0] != ref_parts[1]:
             acc.violate('pooling-methods-disagree', f'never-eject partitions of pooling 0 and 1 differ ({cfg})', {'config': cfg})
         acc.count('oracle:truth_compared')
-        if method != 'plain' and set(map(frozenset, ref_parts[1])) != truth_part:
+        if method != 'plain' and not cap and set(map(frozenset, ref_parts[1])) != truth_part:
             acc.violate('never-eject-partition-differs-from-truth', f'reference partition differs from simulator truth ({cfg})', {'config': cfg})
     else:
         acc.count('oracle:truth_compared', 0)
@@ -315,7 +322,7 @@ def run_case(case):
             stop_after = r.randint(0, max(0, len(ref_parts[pooling]) - 1))
             with contextlib.redirect_stdout(io.StringIO()):
                 it = MoleculeIterator(source, molecule_class=mclass, fragment_class=fclass, fragment_class_args=dict(fargs),
-                                      molecule_class_args={'cache_size': cache}, check_eject_every=every, pooling_method=pooling, yield_invalid=True)
+                                      molecule_class_args=dict(margs), check_eject_every=every, pooling_method=pooling, yield_invalid=True)
                 for k, m in enumerate(it):
                     if k >= stop_after:
                         break
